@@ -373,6 +373,21 @@ func runC03(c *kit.Ctx) {
 				return
 			}
 			_, good := allowedSend[fn]
+			if !good && fn == qrpc {
+				// QueueRPC doing for one call what QueueBatch does for a batch: in the arm that found the connection
+				// closed, which excludes the arm that hands the call over, and with nothing sent before
+				doneF := p.Field("region", "client", "done")
+				for _, st := range selectArmsAt(s.Block()) {
+					if st.Dir == types.RecvOnly && doneF != nil && isLoadOfField(st.Chan, doneF) {
+						good = true
+					}
+				}
+				for _, t := range kit.Calls(qrpc, trySendName) {
+					if kit.Reaches(t.(ssa.Instruction), s) {
+						good = false
+					}
+				}
+			}
 			c.Check(good, fn, "result-send", s.Pos(), "send on a result channel in "+allowedSend[fn], "a new place delivers results to callers: it is outside the ownership discipline (possible double completion)")
 		})
 	}
